@@ -167,7 +167,7 @@ pub fn j_consts(k: u64, c: i128, ts: TimeScale, out: &mut Local) {
     let (name, konst, doc) = table[k as usize];
     let args = vec![k.to_string(), scale_name(ts).to_string(), enc(c)];
     let e = Epoch::from_duration(mk(c), ts);
-    let r = guard(|| (Format::from_str(doc).map(|f| f == konst), format!("{}", Formatter::new(e, konst)), format!("{e}")));
+    let r = guard(|| (Format::from_str(doc).map(|f| f == konst), format!("{}", Formatter::new(e, konst)), format!("{e}"), e.to_isoformat()));
     let (y, m, d, h, mi, s, ns) = text::fields(c, ts);
     let dt = format!("{y:04}-{m:02}-{d:02}T{h:02}:{mi:02}:{s:02}");
     let wd = weekday1900(days1900(y, m, d)) as usize;
@@ -183,7 +183,12 @@ pub fn j_consts(k: u64, c: i128, ts: TimeScale, out: &mut Local) {
         _ => format!("{dt}{}+00:00", if ns != 0 { format!(".{ns:09}") } else { String::new() }),
     };
     match r {
-        Ok((same, got, display)) => {
+        Ok((same, got, display, isof)) => {
+            // Epoch::to_isoformat: the ISO8601_STD rendering cut after six fractional digits (years 0001-9999)
+            if k == 7 && (1..=9999).contains(&y) && isof != want[..26] {
+                out.viol("c19.consts", "to_isoformat-wrong".into(), args, want[..26].to_string(), isof);
+                return;
+            }
             // only the six constants whose format string is documented (doc comments / doc tests) are compared with it
             if k <= 5 && same != Ok(true) {
                 out.viol("c19.consts", format!("{name}-differs-from-documented-string"), args, format!("Format::from_str({doc:?}) == {name}"), format!("{same:?}"));
